@@ -1956,6 +1956,11 @@ def _has_quantifier(e):
 
 def _unmodelled(name):
     def fn(I, st, ca):
+        h = getattr(I, 'unmodelled_hook', None)
+        if h is not None:
+            r = h(name, I, st, ca)
+            if r is not None:
+                return r
         raise Unsupported('call of unmodelled external %s' % name)
     return fn
 
